@@ -21,7 +21,8 @@ import (
 
 // a synthetic in-memory FileSystem that holds arbitrary metadata and records every call
 type memFS struct {
-	fail    error // every call fails with it
+	putTag  string // the entity tag Create hands out ("stored" when empty)
+	fail    error  // every call fails with it
 	files   map[string]*webdav.FileInfo
 	content map[string][]byte
 	log     []string
@@ -97,7 +98,11 @@ func (m *memFS) Create(ctx context.Context, name string, body io.ReadCloser, opt
 	}
 	_, existed := m.files[name]
 	m.content[name] = b
-	m.files[name] = &webdav.FileInfo{Path: name, Size: int64(len(b)), ETag: "stored"}
+	tag := m.putTag
+	if tag == "" {
+		tag = "stored"
+	}
+	m.files[name] = &webdav.FileInfo{Path: name, Size: int64(len(b)), ETag: tag}
 	return m.files[name], !existed, nil
 }
 func (m *memFS) RemoveAll(ctx context.Context, name string, opts *webdav.RemoveAllOptions) error {
@@ -134,7 +139,9 @@ func sxFileInfo(fi *webdav.FileInfo) string {
 }
 
 var dwNames = []string{"x", "a b", "é", "q#1", "w?x", "p%41", "s;t", "plus+", "a&b", "quote'\"", "x<y>", "dot.", "~t", "日本", "%", "a%2Fb", "CON", ".hidden", "trail."}
-var dwMimes = []string{"", "text/plain", "text/plain; charset=utf-8", "application/octet-stream", "x-weird/é", "image/svg+xml"}
+var dwMimes = []string{"", "text/plain", "text/plain; charset=utf-8", "application/octet-stream", "x-weird/é", "image/svg+xml",
+	// values that are not in mime.FormatMediaType's canonical form (the client reports what the backend holds)
+	"text/html;charset=UTF-8", "image/JPEG", "text/calendar; method=REQUEST; charset=utf-8", "text/plain; charset=\"utf-8\"", "Text/Plain", "a/b;x=1;y=2", "not a media type", "text/plain;"}
 var dwEndpoints = []string{"http://example.com", "http://example.com/", "http://example.com/dav", "http://example.com/dav/", "http://example.com/a%20b/c/", "http://user@example.com:8080/pre/fix"}
 
 func randMemFS(r *RNG) (*memFS, []string) {
